@@ -66,3 +66,14 @@ Theorem substituted_equiv fuel (st : tstore) st' : substituted fuel st = Some st
 Proof.
   intros H s. destruct (subst_sections_spec fuel st st st' H s) as [G1 G2]. split; [exact G1|]. intro k. rewrite G2. reflexivity.
 Qed.
+
+(* a variable is found in [Variables] whatever options the section being read has (no shadowing by a species label or an
+   option of the same name) *)
+Theorem variables_first fuel (st : tstore) s name t rest :
+  lookup SVariables (KOpt name) st = Some t ->
+  interp (S fuel) st s (Var name :: rest) =
+    match interp (S fuel) st s rest with
+    | None => None
+    | Some r => option_map (fun x => x ++ r) (interp fuel st s t)
+    end.
+Proof. intro H. cbn [interp fold_right]. destruct (fold_right _ (Some []) rest) as [r|]; [rewrite H; reflexivity|reflexivity]. Qed.
